@@ -109,6 +109,11 @@ def pack(
         raise ValueError(msg)
     bitorder_str = "big" if bitorder[0] == "b" else "little"
     bitfact = 8 // nbits
+    if array.size % bitfact != 0:
+        # a trailing partial byte cannot be represented: refuse it instead of
+        # silently dropping the last samples
+        msg = f"input size must be a multiple of {bitfact}, got {array.size}"
+        raise ValueError(msg)
     if packed is None:
         packed = np.zeros(shape=array.size // bitfact, dtype=np.uint8)
     elif packed.size != array.size // bitfact:
